@@ -528,7 +528,16 @@ impl FaultEngine {
                 // root = the directly reloaded asset during whose reload the fault struck
                 let inv_at = if f.is_read { reads[..=f.k.min(reads.len().saturating_sub(1))].iter().filter(|r| r.starts_with("f:") && r.ends_with(".s")).count().checked_sub(1) } else { Some(f.k) };
                 let root = if !consistent_log { None } else { inv_at.and_then(|j| invocations[..=j.min(invocations.len().saturating_sub(1))].iter().rev().find(|inv| inv.2 == 0 && before.contains_key(&(inv.0.clone(), inv.1.clone())))) };
-                let root_failed = root.map_or(false, |inv| { let key = (inv.0.clone(), inv.1.clone()); before.get(&key).map(|b| b.2) == after.get(&key).map(|a| a.2) });
+                let mut root: Option<(String, String)> = root.map(|inv| (inv.0.clone(), inv.1.clone()));
+                // a read before any script loader ran in this pass: the direct reload of a plain asset `M..:id` reading `id.ext`
+                if root.is_none() && f.is_read && inv_at.is_none() {
+                    if let Some((id, _ext)) = reads.get(f.k).and_then(|r| r.strip_prefix("f:")).and_then(|r| r.rsplit_once('.')) {
+                        let cands: Vec<&(String, String)> = before.keys().filter(|k| k.1 == id && k.0.starts_with('M')).collect();
+                        if cands.len() == 1 { root = Some(cands[0].clone()); }
+                    }
+                }
+                if !consistent_log { rec.stat("loader-log-inconsistent"); }
+                let root_failed = root.as_ref().map_or(false, |key| before.get(key).map(|b| b.2) == after.get(key).map(|a| a.2));
                 // entries created during the faulted pass by a loader that tolerated the fault legitimately stay as they are
                 let degraded = after.iter().any(|(k, v)| !before.contains_key(k) && clean_vals.get(&format!("{}/{}", k.0, hexs(&k.1))) != Some(&v.0));
                 if !root_failed { rec.stat(if root.is_some() { "recovery-not-owed-fault-tolerated" } else { "recovery-not-owed-root-unknown" }); }
